@@ -902,6 +902,33 @@ def corpus():
     ]
 
 
+def gen_read_boundary(rng, nmax=30):
+    """round 5c: the filters of read_vcf at their boundaries -- every sample's DP is min_depth - 1, min_depth or min_depth + 1
+    (so that `>=` and `>` / `>=` on the wrong column differ on most records), FILTER walks through '.', PASS, KEEP, a
+    rejecting value and PASS next to a rejecting value, skip_reject / skip_somatic mostly on, a normal whenever there is one"""
+    m = rng.choice([2, 10, 20, 20, 30])
+    v = gen_vcf(rng, nmax, allow_inf=False, ns=rng.choice([1, 2, 2, 3]))
+    filters = [[], ["PASS"], ["KEEP"], ["q10"], ["PASS", "q10"], ["q10", "s50"]]
+    for k, r in enumerate(v["records"]):
+        r["filter"] = list(filters[(k + rng.randint(0, 1)) % len(filters)])
+        if rng.random() < 0.5:
+            r["somatic"] = rng.random() < 0.4
+        for s in r["smps"]:
+            dp = m + rng.choice([-1, 0, 0, 1])
+            s["dp"] = dp
+            if isinstance(s["ad"], list) and len(s["ad"]) >= 2 and all(isinstance(x, int) for x in s["ad"][:2]):
+                s["ad"][1] = min(s["ad"][1], dp)
+                s["ad"][0] = dp - s["ad"][1]
+            elif isinstance(s["ad"], int):
+                s["ad"] = min(s["ad"], dp)
+    names = v["samples"]
+    nid = _gen_sel(rng, names, allow_bad=False) if len(names) >= 2 and rng.random() < 0.8 else None
+    return {"op": "vcf_read", "tag": "read-boundary",
+            "in": {"vcf": v, "sid": _gen_sel(rng, names, allow_bad=False) if rng.random() < 0.7 else None, "nid": nid,
+                   "min_depth": m if rng.random() < 0.9 else rng.choice([m - 1, m + 1]),
+                   "skip_reject": rng.random() < 0.7, "skip_somatic": rng.random() < 0.7}}
+
+
 def gen_cases(rng, tier):
     cases = []
     if tier == "search":
@@ -940,6 +967,8 @@ def gen_cases(rng, tier):
         cases.append(gen_pairs_read(rng))
     for _ in range({"search": 100, "quick": 180}.get(tier, 1200)):
         cases.append(gen_pairs_hets(rng))
+    for _ in range({"search": 40, "quick": 80}.get(tier, 500)):
+        cases.append(gen_read_boundary(rng))
     return cases
 
 
